@@ -262,3 +262,40 @@ class _:
         ])(v.frags, v.over_pairs, v.lgth, v.i, v._it102),
             frame=lambda v, e: {"LA.Tup_Tup_Row_Int_Tup_Row_Int": [e.over_pairs.z], "LHI.Tup_Tup_Row_Int_Tup_Row_Int": [e.over_pairs.z]}),
     }
+
+
+# --- the report of the command line ----------------------------------------------------------------------------------------
+
+from pyvc.engine import console_ref  # noqa: E402
+from pyvc.spec import ObjView  # noqa: E402
+
+
+@contract("tola.assembly.scripts.asm_format.report_overlaps", kind="function", properties=("C19",))
+class _:
+    # "reports a pair": one heading, then one block per pair handed over, in order, all on STDERR and nothing on STDOUT
+    # (what a block says is text: the two scaffold names and str() of the two fragments; text is opaque here)
+    params = {"asm_name": STR, "pairs": TList(PAIRS)}
+    result = NONE
+
+    @staticmethod
+    def requires(o):
+        err, out = ObjView(o.state, console_ref("stderr"), "TextOut"), ObjView(o.state, console_ref("stdout"), "TextOut")
+        return [("streams", z3.And(err.g_out.z != out.g_out.z, err.g_out.z != o.pairs.z, out.g_out.z != o.pairs.z)),
+                ("pairs-are-fragments", forall(lambda k: z3.Implies(z3.And(0 <= k, k < o.pairs.len), z3.And(o.pairs[k][0][0].is_frag, o.pairs[k][1][0].is_frag,
+                                                                                                         o.pairs[k][0][1].z >= 1, o.pairs[k][0][1].z < o.alloc, o.pairs[k][1][1].z >= 1, o.pairs[k][1][1].z < o.alloc))))]
+
+    modifies = staticmethod(lambda o: [("list", STR, ObjView(o.state, console_ref("stderr"), "TextOut").g_out)])
+
+    @staticmethod
+    def ensures(o, n, res):
+        e0, e1 = ObjView(o.state, console_ref("stderr"), "TextOut").g_out, ObjView(n.state, console_ref("stderr"), "TextOut").g_out
+        return [("one-heading-and-one-block-per-pair", e1.len == e0.len + 1 + o.pairs.len),
+                ("earlier-output-kept", forall(lambda k: z3.Implies(z3.And(0 <= k, k < e0.len), e1[k] == e0[k])))]
+
+    loops = {
+        0: LoopSpec(kind="for", iter_src="pairs", inv=lambda v, e, o: (lambda e0, e1: [
+            ("counter", z3.And(0 <= v._it0, v._it0 <= o.pairs.len)),
+            ("blocks-so-far", z3.And(e1.z == e0.z, e1.len == e0.len + 1 + v._it0)),
+            ("earlier-output-kept", forall(lambda k: z3.Implies(z3.And(0 <= k, k < e0.len), e1[k] == e0[k]))),
+        ])(ObjView(o.state, console_ref("stderr"), "TextOut").g_out, ObjView(v.state, console_ref("stderr"), "TextOut").g_out)),
+    }
